@@ -30,6 +30,8 @@ theorem mem_writtenVars {A : List Access} {x : Nat} :
   · rintro ⟨a, h1, h3, h2⟩; exact ⟨a, ⟨h1, h2⟩, h3⟩
 
 def pinnedCtx : Ctx := ⟨pinnedRule, Gen.attrs⟩
+def fixed1Ctx : Ctx := ⟨fixed1Rule, Gen.attrs⟩
+def fixed3Ctx : Ctx := ⟨fixed3Rule, Gen.attrs⟩
 def fixedCtx : Ctx := ⟨fixedRule, Gen.attrs⟩
 def idealCtx : Ctx := ⟨idealRule, Gen.attrs⟩
 
@@ -41,7 +43,24 @@ def noPureSub : Stmt → Bool
   | .ifThen _ t => noPureSub t
   | .ite _ t f => noPureSub t && noPureSub f
   | .loop _ _ _ _ b => noPureSub b
-  | .call p _ _ => !p
+  | .while _ b => noPureSub b
+  | .ret => true
+  | .opaque _ _ _ _ => true
+  | .call p _ _ _ => !p
+  | .icall _ _ _ => true
+
+/-- no CALL statement of a PURE subroutine whose definition is not in the same Container -/
+def noPureUnresolved : Stmt → Bool
+  | .skip => true
+  | .seq a b => noPureUnresolved a && noPureUnresolved b
+  | .asg _ _ => true
+  | .ifThen _ t => noPureUnresolved t
+  | .ite _ t f => noPureUnresolved t && noPureUnresolved f
+  | .loop _ _ _ _ b => noPureUnresolved b
+  | .while _ b => noPureUnresolved b
+  | .ret => true
+  | .opaque _ _ _ _ => true
+  | .call p mods _ _ => !p || mods.isSome
   | .icall _ _ _ => true
 
 /-- no intrinsic used as a statement (intrinsic subroutine, ALLOCATE, DEALLOCATE) -/
@@ -52,8 +71,113 @@ def noIntrStmt : Stmt → Bool
   | .ifThen _ t => noIntrStmt t
   | .ite _ t f => noIntrStmt t && noIntrStmt f
   | .loop _ _ _ _ b => noIntrStmt b
-  | .call _ _ _ => true
+  | .while _ b => noIntrStmt b
+  | .ret => true
+  | .opaque _ _ _ _ => true
+  | .call _ _ _ _ => true
   | .icall _ _ _ => false
+
+/-- well-formedness of the CodeBlocks: the variables a CodeBlock may read / define are among
+the names occurring in its text -/
+def cbCovered : Stmt → Bool
+  | .skip => true
+  | .seq a b => cbCovered a && cbCovered b
+  | .asg _ _ => true
+  | .ifThen _ t => cbCovered t
+  | .ite _ t f => cbCovered t && cbCovered f
+  | .loop _ _ _ _ b => cbCovered b
+  | .while _ b => cbCovered b
+  | .ret => true
+  | .opaque _ names rd wr => (rd ++ wr).all (fun x => names.contains x)
+  | .call _ _ _ _ => true
+  | .icall _ _ _ => true
+
+/-- no CodeBlock whose text mentions a variable -/
+def cbOk : Stmt → Bool
+  | .skip => true
+  | .seq a b => cbOk a && cbOk b
+  | .asg _ _ => true
+  | .ifThen _ t => cbOk t
+  | .ite _ t f => cbOk t && cbOk f
+  | .loop _ _ _ _ b => cbOk b
+  | .while _ b => cbOk b
+  | .ret => true
+  | .opaque _ _ rd wr => rd.isEmpty && wr.isEmpty
+  | .call _ _ _ _ => true
+  | .icall _ _ _ => true
+
+/-- no inquiry intrinsic applied to a subscripted object -/
+def inqOk (tb : Nat → IAttr) : Stmt → Bool
+  | .skip => true
+  | .seq a b => inqOk tb a && inqOk tb b
+  | .asg l r => okE tb l && okE tb r
+  | .ifThen cnd t => okE tb cnd && inqOk tb t
+  | .ite cnd t f => okE tb cnd && inqOk tb t && inqOk tb f
+  | .loop _ lo hi st b => okE tb lo && okE tb hi && okE tb st && inqOk tb b
+  | .while cnd b => okE tb cnd && inqOk tb b
+  | .ret => true
+  | .opaque _ _ _ _ => true
+  | .call _ _ _ args => okE tb args
+  | .icall k _ args => (!(tb k).inquiry || firstPlain args) && okE tb args
+
+theorem okES_of_inqSubs (c : Ctx) (hs : c.rule.inqSubs = true) (hc : c.rule.cbRW = false) (s : Stmt)
+    (hcb : cbOk s = true) : okES c s = true := by
+  induction s with
+  | seq a b iha ihb =>
+    simp only [cbOk, Bool.and_eq_true] at hcb
+    simp [okES, iha hcb.1, ihb hcb.2]
+  | ifThen cnd t ih => simp only [cbOk] at hcb; simp [okES, okX, hs, ih hcb]
+  | ite cnd t f iht ihf =>
+    simp only [cbOk, Bool.and_eq_true] at hcb
+    simp [okES, okX, hs, iht hcb.1, ihf hcb.2]
+  | loop v lo hi st b ih => simp only [cbOk] at hcb; simp [okES, okX, hs, ih hcb]
+  | «while» cnd b ih => simp only [cbOk] at hcb; simp [okES, okX, hs, ih hcb]
+  | «opaque» f names rd wr => simpa [okES, cbOk, hc] using hcb
+  | _ => simp [okES, okX, hs]
+
+theorem okES_of_cbRW (c : Ctx) (hs : c.rule.inqSubs = true) (hc : c.rule.cbRW = true) (s : Stmt)
+    (hcb : cbCovered s = true) : okES c s = true := by
+  induction s with
+  | seq a b iha ihb =>
+    simp only [cbCovered, Bool.and_eq_true] at hcb
+    simp [okES, iha hcb.1, ihb hcb.2]
+  | ifThen cnd t ih => simp only [cbCovered] at hcb; simp [okES, okX, hs, ih hcb]
+  | ite cnd t f iht ihf =>
+    simp only [cbCovered, Bool.and_eq_true] at hcb
+    simp [okES, okX, hs, iht hcb.1, ihf hcb.2]
+  | loop v lo hi st b ih => simp only [cbCovered] at hcb; simp [okES, okX, hs, ih hcb]
+  | «while» cnd b ih => simp only [cbCovered] at hcb; simp [okES, okX, hs, ih hcb]
+  | «opaque» f names rd wr =>
+    simp only [cbCovered] at hcb
+    simp only [okES, hc, if_true]
+    exact hcb
+  | _ => simp [okES, okX, hs]
+
+theorem okES_of_inqOk (c : Ctx) (hc : c.rule.cbRW = false) (s : Stmt) (hcb : cbOk s = true)
+    (hi : inqOk c.attrs s = true) : okES c s = true := by
+  induction s with
+  | seq a b iha ihb =>
+    simp only [cbOk, inqOk, Bool.and_eq_true] at hcb hi
+    simp [okES, iha hcb.1 hi.1, ihb hcb.2 hi.2]
+  | asg l r => simp only [inqOk, Bool.and_eq_true] at hi; simp [okES, okX, hi.1, hi.2]
+  | ifThen cnd t ih =>
+    simp only [cbOk, inqOk, Bool.and_eq_true] at hcb hi
+    simp [okES, okX, hi.1, ih hcb hi.2]
+  | ite cnd t f iht ihf =>
+    simp only [cbOk, inqOk, Bool.and_eq_true] at hcb hi
+    simp [okES, okX, hi.1.1, iht hcb.1 hi.1.2, ihf hcb.2 hi.2]
+  | loop v lo hi' st b ih =>
+    simp only [cbOk, inqOk, Bool.and_eq_true] at hcb hi
+    simp [okES, okX, hi.1.1.1, hi.1.1.2, hi.1.2, ih hcb hi.2]
+  | «while» cnd b ih =>
+    simp only [cbOk, inqOk, Bool.and_eq_true] at hcb hi
+    simp [okES, okX, hi.1, ih hcb hi.2]
+  | «opaque» f names rd wr => simpa [okES, cbOk, hc] using hcb
+  | call p mods f args => simp only [inqOk] at hi; simp [okES, okX, hi]
+  | icall k f args =>
+    simp only [inqOk] at hi
+    simp only [okES, hi, Bool.or_true]
+  | _ => simp [okES]
 
 theorem okS_ideal (tb : Nat → IAttr) (s : Stmt) : okS ⟨idealRule, tb⟩ s = true := by
   induction s with
@@ -61,15 +185,38 @@ theorem okS_ideal (tb : Nat → IAttr) (s : Stmt) : okS ⟨idealRule, tb⟩ s = 
   | ifThen c t ih => simpa [okS] using ih
   | ite c t f iht ihf => simp [okS, iht, ihf]
   | loop v lo hi st b ih => simpa [okS] using ih
-  | call p f args => cases p <;> rfl
+  | «while» c b ih => simpa [okS] using ih
+  | call p mods f args => cases p <;> simp [okS, idealRule]
   | _ => rfl
 
-theorem okS_fixed (tb : Nat → IAttr) (s : Stmt) : okS ⟨fixedRule, tb⟩ s = noPureSub s := by
+theorem okS_fixed (tb : Nat → IAttr) (s : Stmt) : okS ⟨fixedRule, tb⟩ s = noPureUnresolved s := by
+  induction s with
+  | seq a b iha ihb => simp [okS, noPureUnresolved, iha, ihb]
+  | ifThen c t ih => simpa [okS, noPureUnresolved] using ih
+  | ite c t f iht ihf => simp [okS, noPureUnresolved, iht, ihf]
+  | loop v lo hi st b ih => simpa [okS, noPureUnresolved] using ih
+  | «while» c b ih => simpa [okS, noPureUnresolved] using ih
+  | call p mods f args => cases p <;> simp [okS, noPureUnresolved, fixedRule]
+  | _ => rfl
+
+theorem okS_fixed3 (tb : Nat → IAttr) (s : Stmt) : okS ⟨fixed3Rule, tb⟩ s = noPureUnresolved s := by
+  induction s with
+  | seq a b iha ihb => simp [okS, noPureUnresolved, iha, ihb]
+  | ifThen c t ih => simpa [okS, noPureUnresolved] using ih
+  | ite c t f iht ihf => simp [okS, noPureUnresolved, iht, ihf]
+  | loop v lo hi st b ih => simpa [okS, noPureUnresolved] using ih
+  | «while» c b ih => simpa [okS, noPureUnresolved] using ih
+  | call p mods f args => cases p <;> simp [okS, noPureUnresolved, fixed3Rule]
+  | _ => rfl
+
+theorem okS_fixed1 (tb : Nat → IAttr) (s : Stmt) : okS ⟨fixed1Rule, tb⟩ s = noPureSub s := by
   induction s with
   | seq a b iha ihb => simp [okS, noPureSub, iha, ihb]
   | ifThen c t ih => simpa [okS, noPureSub] using ih
   | ite c t f iht ihf => simp [okS, noPureSub, iht, ihf]
   | loop v lo hi st b ih => simpa [okS, noPureSub] using ih
+  | «while» c b ih => simpa [okS, noPureSub] using ih
+  | call p mods f args => cases p <;> simp [okS, noPureSub, fixed1Rule]
   | _ => rfl
 
 theorem okS_pinned (tb : Nat → IAttr) (s : Stmt) :
@@ -83,7 +230,8 @@ theorem okS_pinned (tb : Nat → IAttr) (s : Stmt) :
     simp only [okS, noPureSub, noIntrStmt, iht, ihf]
     cases noPureSub t <;> cases noPureSub f <;> cases noIntrStmt t <;> cases noIntrStmt f <;> rfl
   | loop v lo hi st b ih => simpa [okS, noPureSub, noIntrStmt] using ih
-  | call p f args => cases p <;> rfl
+  | «while» c b ih => simpa [okS, noPureSub, noIntrStmt] using ih
+  | call p mods f args => cases p <;> simp [okS, noPureSub, noIntrStmt, pinnedRule]
   | _ => rfl
 
 /-- elements of an argument spine -/
@@ -92,35 +240,43 @@ def spineList : Expr → List Expr
   | _ => []
 
 theorem spine_elem_recorded (c : Ctx) (k : Kind) (args : Expr) :
-    ∀ (n : Nat) (e : Expr), e ∈ spineList args → e.isRef = true →
-      ∃ a ∈ (acc c args (.spine (some k) false) n).1, a.var = e.refVar ∧ a.kind = k := by
+    ∀ (mask n : Nat) (e : Expr), e ∈ spineList args → e.isRef = true →
+      ∃ a ∈ (acc c args (.spine (some k) mask false) n).1, a.var = e.refVar ∧
+        (a.kind = k ∨ a.kind = .readwrite) := by
   induction args with
   | cons hd rest _ ihr =>
-    intro n e he href
+    intro mask n e he href
     simp only [spineList, List.mem_cons] at he
     rcases he with rfl | he
-    · have : ∃ a ∈ (acc c e (.elem k) n).1, a.var = e.refVar ∧ a.kind = k := by
+    · have key : ∀ k', ∃ a ∈ (acc c e (.elem k') n).1, a.var = e.refVar ∧ a.kind = k' := by
+        intro k'
         cases e <;> simp [Expr.isRef] at href
-        · exact ⟨⟨_, k, n, 0⟩, by simp [acc], rfl, rfl⟩
-        · exact ⟨⟨_, k, n, 0⟩, by simp [acc], rfl, rfl⟩
-        · exact ⟨⟨_, k, n, 0⟩, by simp [acc], rfl, rfl⟩
-        · exact ⟨⟨_, k, n, 0⟩, by simp [acc], rfl, rfl⟩
-      obtain ⟨a, ha, h1, h2⟩ := this
+        · exact ⟨⟨_, k', n, 0⟩, by simp [acc], rfl, rfl⟩
+        · exact ⟨⟨_, k', n, 0⟩, by simp [acc], rfl, rfl⟩
+        · exact ⟨⟨_, k', n, 0⟩, by simp [acc], rfl, rfl⟩
+        · exact ⟨⟨_, k', n, 0⟩, by simp [acc], rfl, rfl⟩
+      by_cases hm : mask % 2 = 1
+      · obtain ⟨a, ha, h1, h2⟩ := key .readwrite
+        refine ⟨a, ?_, h1, Or.inr h2⟩
+        simp only [acc, Bool.false_eq_true, if_false, hm, if_true, elemMode, List.mem_append]
+        exact Or.inl ha
+      · obtain ⟨a, ha, h1, h2⟩ := key k
+        refine ⟨a, ?_, h1, Or.inl h2⟩
+        simp only [acc, Bool.false_eq_true, if_false, hm, elemMode, List.mem_append]
+        exact Or.inl ha
+    · obtain ⟨a, ha, h1, h2⟩ := ihr (mask / 2)
+        (acc c hd (elemMode (if mask % 2 = 1 then some Kind.readwrite else some k)) n).2 e he href
       refine ⟨a, ?_, h1, h2⟩
-      simp only [acc, Bool.false_eq_true, if_false, elemMode, List.mem_append]
-      exact Or.inl ha
-    · obtain ⟨a, ha, h1, h2⟩ := ihr (acc c hd (.elem k) n).2 e he href
-      refine ⟨a, ?_, h1, h2⟩
-      simp only [acc, Bool.false_eq_true, if_false, elemMode, List.mem_append]
+      simp only [acc, Bool.false_eq_true, if_false, List.mem_append]
       exact Or.inr ha
-  | _ => intro n e he; simp [spineList] at he
+  | _ => intro mask n e he; simp [spineList] at he
 
 /-! ## The property -/
 
 /-- **C11 for one statement** in context `c`: whenever the access collection does not raise,
 every element read by any execution of the statement (any store, any behaviour of the
-callees) belongs to a variable reported as read, and every element written to a variable
-reported as written. -/
+callees, any number of DO WHILE iterations) belongs to a variable reported as read, and
+every element written to a variable reported as written. -/
 def C11_holds_for (c : Ctx) (s : Stmt) : Prop :=
   ∀ (A : List Access), refAcc c s = some A →
     ∀ (ω : Oracle) (σ : Store) (l : Loc),
@@ -135,12 +291,12 @@ of) every MiniF statement its store component is `MiniF.exec`. -/
 theorem C11_execT_agrees (ω : Oracle) (tb : Nat → IAttr) (s : MiniF.Stmt) (σ : Store) :
     (execT ω tb (emb s) σ).1 = MiniF.exec s σ := execT_emb ω tb s σ
 
-/-- Every element read is reported read — for ALL three rules (pinned, fixed, ideal), all
-stores, callee behaviours and trip counts, and every statement in which no inquiry intrinsic
-is applied to a subscripted object (`okES`; see `C11_inquiry_counterexample`).  Subscripts
-on every component of a structure access are included (the reference forms carry the
-subscripts of all components). -/
-theorem C11_reads (c : Ctx) (s : Stmt) (hq : okES c.attrs s = true) (A : List Access) (h : refAcc c s = some A)
+/-- Every element read is reported read — for every rule (pinned, fixed, ideal), all stores,
+callee behaviours, trip counts and DO WHILE iteration bounds, and every statement satisfying
+`okES`: no CodeBlock that mentions a variable and (only for rules that do not visit them) no
+inquiry intrinsic applied to a subscripted object.  Subscripts on every component of a
+structure access are included. -/
+theorem C11_reads (c : Ctx) (s : Stmt) (hq : okES c s = true) (A : List Access) (h : refAcc c s = some A)
     (ω : Oracle) (σ : Store) (l : Loc) (hev : Event.rd l ∈ (execT ω c.attrs s σ).2) :
     l.1 ∈ readVars A := by
   simp only [refAcc, Option.map_eq_some_iff] at h
@@ -150,10 +306,10 @@ theorem C11_reads (c : Ctx) (s : Stmt) (hq : okES c.attrs s = true) (A : List Ac
   exact mem_readVars.mpr ⟨a, ha, h1, h2⟩
 
 /-- Every element written is reported written, provided (i) impure user functions mark
-their by-reference arguments READWRITE and (ii) so does every call statement / intrinsic
-statement occurring in `s` (`okS`). -/
+their by-reference arguments READWRITE and (ii) every call statement / intrinsic statement
+occurring in `s` records what its callee may store into (`okS`). -/
 theorem C11_writes (c : Ctx) (hfn : c.rule.callRW false false = true) (s : Stmt) (hok : okS c s = true)
-    (hq : okES c.attrs s = true) (A : List Access) (h : refAcc c s = some A)
+    (hq : okES c s = true) (A : List Access) (h : refAcc c s = some A)
     (ω : Oracle) (σ : Store) (l : Loc) (hev : Event.wr l ∈ (execT ω c.attrs s σ).2) :
     l.1 ∈ writtenVars A := by
   simp only [refAcc, Option.map_eq_some_iff] at h
@@ -162,37 +318,78 @@ theorem C11_writes (c : Ctx) (hfn : c.rule.callRW false false = true) (s : Stmt)
   obtain ⟨a, ha, h1, h2⟩ := this _ hev rfl
   exact mem_writtenVars.mpr ⟨a, ha, h1, h2⟩
 
-/-- With the ideal call rule the property holds for every statement without an inquiry of a
-subscripted object, with any intrinsic table. -/
-theorem C11_ideal (tb : Nat → IAttr) (s : Stmt) (hq : okES tb s = true) : C11_holds_for ⟨idealRule, tb⟩ s := by
+/-- With the ideal call rule the property holds for every statement with well-formed
+CodeBlocks, with any intrinsic table. -/
+theorem C11_ideal (tb : Nat → IAttr) (s : Stmt) (hcb : cbCovered s = true) : C11_holds_for ⟨idealRule, tb⟩ s := by
   intro A h ω σ l
+  have hq := okES_of_cbRW ⟨idealRule, tb⟩ rfl rfl s hcb
   exact ⟨C11_reads _ s hq A h ω σ l, C11_writes _ rfl s (okS_ideal tb s) hq A h ω σ l⟩
 
-/-- **The code with the fix**: the property holds for every statement that contains no CALL of
-a PURE subroutine and no inquiry of a subscripted object (the two known findings). -/
-theorem C11_fixed_partial (s : Stmt) (hs : noPureSub s = true) (hq : okES Gen.attrs s = true) :
+/-- **The code with the four C11 fixes**: the property holds for every statement (with
+well-formed CodeBlocks) that contains no CALL of a PURE subroutine defined outside the
+Container (the remaining known finding). -/
+theorem C11_fixed_partial (s : Stmt) (hs : noPureUnresolved s = true) (hcb : cbCovered s = true) :
     C11_holds_for fixedCtx s := by
   intro A h ω σ l
+  have hq := okES_of_cbRW fixedCtx rfl rfl s hcb
   exact ⟨C11_reads _ s hq A h ω σ l,
     C11_writes fixedCtx rfl s (by rw [fixedCtx, okS_fixed]; exact hs) hq A h ω σ l⟩
 
-/-- `call psub(x)` with `pure subroutine psub` storing into its argument is reported as
-`x: READ` by the code with the fix (and by the pinned code). -/
-theorem C11_fixed_counterexample : ¬ C11_holds_for fixedCtx (.call true 0 (.cons (.var 0) .nil)) := by
+/-- **Without the CodeBlock fix** (first three fixes): … and no CodeBlock mentions a variable. -/
+theorem C11_fixed3_partial (s : Stmt) (hs : noPureUnresolved s = true) (hcb : cbOk s = true) :
+    C11_holds_for fixed3Ctx s := by
+  intro A h ω σ l
+  have hq := okES_of_inqSubs fixed3Ctx rfl rfl s hcb
+  exact ⟨C11_reads _ s hq A h ω σ l,
+    C11_writes fixed3Ctx rfl s (by rw [fixed3Ctx, okS_fixed3]; exact hs) hq A h ω σ l⟩
+
+/-- `call psub(x)` with `pure subroutine psub` (definition not available) storing into its
+argument is reported as `x: READ`. -/
+theorem C11_fixed_counterexample : ¬ C11_holds_for fixedCtx (.call true none 0 (.cons (.var 0) .nil)) := by
   intro h
   have := (h [⟨0, .read, 0, 0⟩] (by decide)
-    ⟨fun _ _ => 0, fun _ _ _ => some 1, fun _ _ => 0⟩ (MiniF.storeOf []) (0, 0, 0)).2
+    ⟨fun _ _ => 0, fun _ _ _ => some 1, fun _ _ => 0, 0⟩ (MiniF.storeOf []) (0, 0, 0)).2
     (by simp [execT, evalT, applyUpd])
   revert this
   decide
 
-/-- **The pinned code**: the property holds for statements without PURE-subroutine calls,
-without intrinsic statements and without inquiries of subscripted objects. -/
-theorem C11_pinned_partial (s : Stmt) (hs : noPureSub s = true) (hi : noIntrStmt s = true)
-    (hq : okES Gen.attrs s = true) : C11_holds_for pinnedCtx s := by
+/-- A CodeBlock `write(*,*) x; read(*,*) y` (names x = 0, y = 1; reads 0, defines 1): a rule that
+does not record the names of a CodeBlock records nothing (the code before
+fixes/C11-codeblock-accesses.patch). -/
+theorem C11_codeblock_counterexample (r : Rule) (hr : r.cbRW = false) :
+    ¬ C11_holds_for ⟨r, Gen.attrs⟩ (.opaque 0 [0, 1] [0] [1]) := by
+  intro h
+  have := (h [] (by simp [refAcc, accS, hr, bumpIf])
+    ⟨fun _ _ => 0, fun _ _ _ => some 1, fun _ _ => 0, 0⟩ (MiniF.storeOf []) (0, 0, 0)).1
+    (by simp [execT])
+  revert this
+  decide
+
+/-- Hence the full statement fails for every such rule; for the code with all four fixes it
+fails on the PURE subroutine defined elsewhere. -/
+theorem C11_statement_fails (r : Rule) (hr : r.cbRW = false) : ¬ C11_statement ⟨r, Gen.attrs⟩ :=
+  fun h => C11_codeblock_counterexample r hr (h _)
+
+theorem C11_statement_fails_fixed : ¬ C11_statement fixedCtx :=
+  fun h => C11_fixed_counterexample (h _)
+
+/-- **Without the inquiry and pure-subroutine fixes** (intrinsic-subroutine fix only): the
+property holds when additionally there is no PURE-subroutine call at all and no inquiry of a
+subscripted object. -/
+theorem C11_fixed1_partial (s : Stmt) (hs : noPureSub s = true) (hcb : cbOk s = true)
+    (hi : inqOk Gen.attrs s = true) : C11_holds_for fixed1Ctx s := by
   intro A h ω σ l
+  have hq := okES_of_inqOk fixed1Ctx rfl s hcb hi
   exact ⟨C11_reads _ s hq A h ω σ l,
-    C11_writes pinnedCtx rfl s (by rw [pinnedCtx, okS_pinned, hs, hi]; rfl) hq A h ω σ l⟩
+    C11_writes fixed1Ctx rfl s (by rw [fixed1Ctx, okS_fixed1]; exact hs) hq A h ω σ l⟩
+
+/-- **The pinned code**: … and no intrinsic statement. -/
+theorem C11_pinned_partial (s : Stmt) (hs : noPureSub s = true) (hn : noIntrStmt s = true)
+    (hcb : cbOk s = true) (hi : inqOk Gen.attrs s = true) : C11_holds_for pinnedCtx s := by
+  intro A h ω σ l
+  have hq := okES_of_inqOk pinnedCtx rfl s hcb hi
+  exact ⟨C11_reads _ s hq A h ω σ l,
+    C11_writes pinnedCtx rfl s (by rw [pinnedCtx, okS_pinned, hs, hn]; rfl) hq A h ω σ l⟩
 
 /-- The pinned code reports `call random_number(x)` (as an `IntrinsicCall`) as `x: READ`. -/
 theorem C11_pinned_counterexample :
@@ -200,16 +397,15 @@ theorem C11_pinned_counterexample :
   intro h
   have hi : (pinnedCtx.attrs Gen.id_RANDOM_NUMBER).inquiry = false := by decide
   have := (h [⟨0, .read, 0, 0⟩] (by decide)
-    ⟨fun _ _ => 0, fun _ _ _ => some 1, fun _ _ => 0⟩ (MiniF.storeOf []) (0, 0, 0)).2
+    ⟨fun _ _ => 0, fun _ _ _ => some 1, fun _ _ => 0, 0⟩ (MiniF.storeOf []) (0, 0, 0)).2
     (by simp [execT, evalT, applyUpd, hi])
   revert this
   decide
 
 /-- `n = size(w(idx(j):10))` (w = 0, idx = 1, j = 2, n = 3): evaluating the section bound reads
-`j` and `idx`, but the collection skips the whole inquired argument and reports only
-`n: WRITE` — for every rule, also the ideal one (known finding
-C11-inquiry-subscripts-not-read). -/
-theorem C11_inquiry_counterexample (r : Rule) :
+`j` and `idx`; a rule that does not visit the subscripts of the inquired argument reports only
+`n: WRITE` (the code before fixes/C11-inquiry-subscripts.patch). -/
+theorem C11_inquiry_counterexample (r : Rule) (hr : r.inqSubs = false) :
     ¬ C11_holds_for ⟨r, Gen.attrs⟩ (.asg (.var 3) (.intr Gen.id_SIZE
         (.cons (.idxs 0 1 (.cons (.cons (.idx1 1 (.var 2)) (.cons (.lit 10) (.cons (.lit 1) .nil))) .nil)) .nil))) := by
   intro h
@@ -217,17 +413,13 @@ theorem C11_inquiry_counterexample (r : Rule) :
   have hA : refAcc ⟨r, Gen.attrs⟩ (.asg (.var 3) (.intr Gen.id_SIZE
       (.cons (.idxs 0 1 (.cons (.cons (.idx1 1 (.var 2)) (.cons (.lit 10) (.cons (.lit 1) .nil))) .nil)) .nil)))
       = some [⟨3, .write, 0, 0⟩] := by
-    simp [refAcc, accS, acc, hi, Expr.isRef, Expr.refVar, changeReadToWrite, project, bumpIf, shift]
-  have := (h _ hA ⟨fun _ _ => 0, fun _ _ _ => none, fun _ _ => 0⟩ (MiniF.storeOf []) (2, 0, 0)).1
+    simp [refAcc, accS, acc, hi, hr, Expr.isRef, Expr.refVar, changeReadToWrite, project, bumpIf, shift]
+  have := (h _ hA ⟨fun _ _ => 0, fun _ _ _ => none, fun _ _ => 0, 0⟩ (MiniF.storeOf []) (2, 0, 0)).1
     (by simp [execT, evalT, lhsT, hi])
   revert this
   decide
 
-/-- Hence the full statement fails for every rule. -/
-theorem C11_statement_fails (r : Rule) : ¬ C11_statement ⟨r, Gen.attrs⟩ :=
-  fun h => C11_inquiry_counterexample r (h _)
-
-/-- With the fix the same statement (and ALLOCATE) is reported READWRITE. -/
+/-- With the fix every by-reference argument of an intrinsic statement is reported written. -/
 theorem C11_fixed_intrinsic_stmt (k f : Nat) (args : Expr) (A : List Access)
     (h : refAcc fixedCtx (.icall k f args) = some A) (e : Expr)
     (he : e ∈ spineList args) (href : e.isRef = true) (hinq : (Gen.attrs k).inquiry = false) :
@@ -235,30 +427,39 @@ theorem C11_fixed_intrinsic_stmt (k f : Nat) (args : Expr) (A : List Access)
   simp only [refAcc, accS, fixedCtx, fixedRule, bumpIf, Bool.false_eq_true, if_false, if_true,
     Option.map_some, Option.some.injEq, hinq] at h
   subst h
-  obtain ⟨a, ha, h1, h2⟩ := spine_elem_recorded ⟨fixedRule, Gen.attrs⟩ .readwrite args 0 e he href
-  exact mem_writtenVars.mpr ⟨a, ha, h1, by rw [h2]; rfl⟩
+  obtain ⟨a, ha, h1, h2⟩ := spine_elem_recorded ⟨fixedRule, Gen.attrs⟩ .readwrite args 0 0 e he href
+  exact mem_writtenVars.mpr ⟨a, ha, h1, by rcases h2 with h2 | h2 <;> (rw [h2]; rfl)⟩
 
 /-- **Calls**: under by-reference argument passing a callee may modify any argument that is a
 reference; whenever the rule answers READWRITE for the call (always for the ideal rule; for
-the pinned/fixed code: when the routine is not PURE) every such argument is reported written. -/
-theorem C11_call_args_written (c : Ctx) (p : Bool) (f : Nat) (args : Expr)
+the real code: when the routine is not PURE) every such argument is reported written (and
+read). -/
+theorem C11_call_args_written (c : Ctx) (p : Bool) (mods : Option Nat) (f : Nat) (args : Expr)
     (hrw : c.rule.callRW p true = true) (A : List Access)
-    (h : refAcc c (.call p f args) = some A) (e : Expr)
+    (h : refAcc c (.call p mods f args) = some A) (e : Expr)
     (he : e ∈ spineList args) (href : e.isRef = true) :
     e.refVar ∈ writtenVars A ∧ e.refVar ∈ readVars A := by
   simp only [refAcc, accS, bumpIf, Bool.false_eq_true, if_false, Option.map_some,
     Option.some.injEq, hrw] at h
   subst h
-  obtain ⟨a, ha, h1, h2⟩ := spine_elem_recorded c (kindOf true) args 0 e he href
-  exact ⟨mem_writtenVars.mpr ⟨a, ha, h1, by rw [h2]; rfl⟩, mem_readVars.mpr ⟨a, ha, h1, by rw [h2]; rfl⟩⟩
+  obtain ⟨a, ha, h1, h2⟩ := spine_elem_recorded c (kindOf true) args _ 0 e he href
+  have hk : a.kind = .readwrite := by rcases h2 with h2 | h2 <;> exact h2
+  exact ⟨mem_writtenVars.mpr ⟨a, ha, h1, by rw [hk]; rfl⟩, mem_readVars.mpr ⟨a, ha, h1, by rw [hk]; rfl⟩⟩
 
-/-- … and dynamically: every store a callee makes through an argument is reported. -/
-theorem C11_call_writes (c : Ctx) (hfn : c.rule.callRW false false = true) (p : Bool) (f : Nat) (args : Expr)
-    (hrw : c.rule.callRW p true = true) (hq : okE c.attrs args = true)
-    (A : List Access) (h : refAcc c (.call p f args) = some A)
-    (ω : Oracle) (σ : Store) (l : Loc) (hev : Event.wr l ∈ (execT ω c.attrs (.call p f args) σ).2) :
-    l.1 ∈ writtenVars A :=
-  C11_writes c hfn _ (by simpa [okS] using hrw) (by simpa [okES] using hq) A h ω σ l hev
+/-- … and dynamically: every store a callee makes through an argument is reported — also for
+a PURE subroutine defined in the same Container, when the rule uses its declared intents. -/
+theorem C11_call_writes (c : Ctx) (hfn : c.rule.callRW false false = true) (p : Bool) (mods : Option Nat)
+    (f : Nat) (args : Expr)
+    (hrw : c.rule.callRW p true = true ∨ (c.rule.useIntents = true ∧ p = true ∧ mods.isSome = true))
+    (hq : okX c args = true)
+    (A : List Access) (h : refAcc c (.call p mods f args) = some A)
+    (ω : Oracle) (σ : Store) (l : Loc) (hev : Event.wr l ∈ (execT ω c.attrs (.call p mods f args) σ).2) :
+    l.1 ∈ writtenVars A := by
+  refine C11_writes c hfn _ ?_ (by simpa [okES] using hq) A h ω σ l hev
+  simp only [okS, Bool.or_eq_true, Bool.and_eq_true]
+  rcases hrw with h | ⟨h1, h2, h3⟩
+  · exact Or.inl h
+  · exact Or.inr ⟨⟨h1, h2⟩, h3⟩
 
 /-- **Order inside an assignment (static).**  When the collection does not raise, the access
 list is `pre ++ [target]`: the target's WRITE is the last access, `pre` consists of the
@@ -366,6 +567,17 @@ theorem C11_loop_variable (c : Ctx) (v : Nat) (lo hi st : Expr) (b : Stmt) (A : 
   · cases hr
     exact ⟨_, rfl, by simp [List.append_assoc]⟩
 
+/-- DO WHILE: the accesses of the condition come first (condition reads before the body),
+then those of the body. -/
+theorem C11_while_order (c : Ctx) (cnd : Expr) (b : Stmt) (A : List Access)
+    (h : refAcc c (.while cnd b) = some A) : (acc c cnd .val 0).1 <+: A := by
+  simp only [refAcc, accS, Option.map_eq_some_iff] at h
+  obtain ⟨r, hr, rfl⟩ := h
+  split at hr
+  · cases hr
+  · cases hr
+    simp [bumpIf]
+
 /-! ## non-vacuity and sanity evaluations -/
 
 /-- `a(i) = a(i) + 1` (a = 0, i = 1): `i` READ, `a` READ, then `i` READ, `a` WRITE -/
@@ -380,14 +592,30 @@ live table) -/
 example : refAcc fixedCtx (.asg (.var 1) (.intr Gen.id_SIZE (.cons (.var 0) (.cons (.var 2) .nil))))
     = some [⟨2, .read, 0, 0⟩, ⟨1, .write, 0, 0⟩] := by decide
 
+/-- `n = size(w(idx(j):10))` with the inquiry fix: `j`, `idx` READ -/
+example : refAcc fixedCtx (.asg (.var 3) (.intr Gen.id_SIZE
+      (.cons (.idxs 0 1 (.cons (.cons (.idx1 1 (.var 2)) (.cons (.lit 10) (.cons (.lit 1) .nil))) .nil)) .nil)))
+    = some [⟨2, .read, 0, 0⟩, ⟨1, .read, 0, 1⟩, ⟨3, .write, 0, 0⟩] := by decide
+
 /-- `do i = j, k; a(i) = i; enddo` -/
 example : refAcc fixedCtx (.loop 0 (.var 1) (.var 2) (.lit 1) (.asg (.idx1 3 (.var 0)) (.var 0)))
     = some [⟨0, .write, 0, 0⟩, ⟨0, .read, 0, 0⟩, ⟨1, .read, 0, 0⟩, ⟨2, .read, 0, 0⟩,
             ⟨0, .read, 1, 0⟩, ⟨0, .read, 1, 0⟩, ⟨3, .write, 1, 1⟩] := by decide
 
+/-- `do while (i < n); i = i + 1; enddo` (i = 0, n = 1) -/
+example : refAcc fixedCtx (.while (.bin .lt (.var 0) (.var 1)) (.asg (.var 0) (.bin .add (.var 0) (.lit 1))))
+    = some [⟨0, .read, 0, 0⟩, ⟨1, .read, 0, 0⟩, ⟨0, .read, 1, 0⟩, ⟨0, .write, 1, 0⟩] := by decide
+
 /-- `call sub(a(i), j+1)` : `a` READWRITE first, then `i`, `j` READ -/
-example : refAcc fixedCtx (.call false 0 (.cons (.idx1 0 (.var 1)) (.cons (.bin .add (.var 2) (.lit 1)) .nil)))
+example : refAcc fixedCtx (.call false none 0 (.cons (.idx1 0 (.var 1)) (.cons (.bin .add (.var 2) (.lit 1)) .nil)))
     = some [⟨0, .readwrite, 0, 0⟩, ⟨1, .read, 0, 0⟩, ⟨2, .read, 0, 0⟩] := by decide
+
+/-- `call psub(i, j)`, `pure subroutine psub(x, n)` in the same Container with `x` INTENT(OUT),
+`n` INTENT(IN) (mask 1): pinned `i: READ`, with the fix `i: READWRITE, j: READ` -/
+example : refAcc pinnedCtx (.call true (some 1) 0 (.cons (.var 0) (.cons (.var 1) .nil)))
+    = some [⟨0, .read, 0, 0⟩, ⟨1, .read, 0, 0⟩] := by decide
+example : refAcc fixedCtx (.call true (some 1) 0 (.cons (.var 0) (.cons (.var 1) .nil)))
+    = some [⟨0, .readwrite, 0, 0⟩, ⟨1, .read, 0, 0⟩] := by decide
 
 /-- ALLOCATE(z(1:n), stat=k): pinned READ only, fixed READWRITE -/
 example : refAcc pinnedCtx (.icall Gen.id_ALLOCATE 0
@@ -398,19 +626,26 @@ example : refAcc fixedCtx (.icall Gen.id_ALLOCATE 0
     = some [⟨0, .readwrite, 0, 0⟩, ⟨1, .read, 0, 0⟩, ⟨2, .readwrite, 0, 0⟩] := by decide
 
 /-- the hypotheses of the partial theorems are satisfiable on a statement with calls, an
-intrinsic statement and a loop -/
-example : noPureSub (.seq (.call false 0 (.cons (.var 0) .nil))
-    (.loop 1 (.lit 1) (.var 0) (.lit 1) (.icall Gen.id_RANDOM_NUMBER 1 (.cons (.idx1 2 (.var 1)) .nil)))) = true := by
-  decide
-example : (refAcc fixedCtx (.seq (.call false 0 (.cons (.var 0) .nil))
-    (.loop 1 (.lit 1) (.var 0) (.lit 1) (.icall Gen.id_RANDOM_NUMBER 1 (.cons (.idx1 2 (.var 1)) .nil))))).isSome = true := by
-  decide
-example : okES Gen.attrs (.seq (.call false 0 (.cons (.idxs 0 3 (.cons (.var 1) (.cons (.var 2) (.cons (.var 3) .nil)))) .nil))
+intrinsic statement, loops, a RETURN and a variable-free CodeBlock (`exit`) -/
+example : noPureUnresolved (.seq (.call true (some 1) 0 (.cons (.var 0) .nil))
+    (.loop 1 (.lit 1) (.var 0) (.lit 1) (.seq (.icall Gen.id_RANDOM_NUMBER 1 (.cons (.idx1 2 (.var 1)) .nil))
+      (.ifThen (.var 3) (.seq (.opaque 2 [] [] []) .ret))))) = true := by decide
+/-- `write(*,*) a(i), n; read(*,*) j` (a = 0, i = 1, n = 2, j = 3) with the CodeBlock fix -/
+example : refAcc fixedCtx (.opaque 0 [0, 1, 2, 3] [0, 1, 2] [3])
+    = some [⟨0, .readwrite, 0, 0⟩, ⟨1, .readwrite, 0, 0⟩, ⟨2, .readwrite, 0, 0⟩, ⟨3, .readwrite, 0, 0⟩] := by decide
+example : cbCovered (.opaque 0 [0, 1, 2, 3] [0, 1, 2] [3]) = true := by decide
+example : cbOk (.seq (.call true (some 1) 0 (.cons (.var 0) .nil))
+    (.loop 1 (.lit 1) (.var 0) (.lit 1) (.seq (.icall Gen.id_RANDOM_NUMBER 1 (.cons (.idx1 2 (.var 1)) .nil))
+      (.ifThen (.var 3) (.seq (.opaque 2 [] [] []) .ret))))) = true := by decide
+example : (refAcc fixedCtx (.seq (.call true (some 1) 0 (.cons (.var 0) .nil))
+    (.loop 1 (.lit 1) (.var 0) (.lit 1) (.seq (.icall Gen.id_RANDOM_NUMBER 1 (.cons (.idx1 2 (.var 1)) .nil))
+      (.ifThen (.var 3) (.seq (.opaque 2 [] [] []) .ret)))))).isSome = true := by decide
+example : inqOk Gen.attrs (.seq (.call false none 0 (.cons (.idxs 0 3 (.cons (.var 1) (.cons (.var 2) (.cons (.var 3) .nil)))) .nil))
     (.asg (.var 4) (.intr Gen.id_SIZE (.cons (.var 5) (.cons (.var 1) .nil))))) = true := by decide
 /-- `call update(g(i)%b(j)%x(k))`: the subscripts of ALL components are reported READ -/
-example : refAcc fixedCtx (.call false 0 (.cons (.idxs 0 3 (.cons (.var 1) (.cons (.var 2) (.cons (.var 3) .nil)))) .nil))
+example : refAcc fixedCtx (.call false none 0 (.cons (.idxs 0 3 (.cons (.var 1) (.cons (.var 2) (.cons (.var 3) .nil)))) .nil))
     = some [⟨0, .readwrite, 0, 0⟩, ⟨1, .read, 0, 0⟩, ⟨2, .read, 0, 0⟩, ⟨3, .read, 0, 0⟩] := by decide
-example : noIntrStmt (.ite (.var 0) (.call false 0 (.cons (.var 1) .nil)) .skip) = true := by decide
+example : noIntrStmt (.ite (.var 0) (.call false none 0 (.cons (.var 1) .nil)) .skip) = true := by decide
 
 /-- the live table: SIZE/LBOUND are inquiries, ALLOCATE / RANDOM_NUMBER are not pure -/
 example : (Gen.attrs Gen.id_SIZE).inquiry = true ∧ (Gen.attrs Gen.id_LBOUND).inquiry = true ∧
@@ -418,7 +653,7 @@ example : (Gen.attrs Gen.id_SIZE).inquiry = true ∧ (Gen.attrs Gen.id_LBOUND).i
     (Gen.attrs Gen.id_MAX).inquiry = false := by decide
 
 /-- a dynamic trace: `a(i) = a(i) + 1` from `i = 2` reads `i`, `a(2)`, `i`, writes `a(2)` -/
-example : (execT ⟨fun _ _ => 0, fun _ _ _ => none, fun _ _ => 0⟩ Gen.attrs
+example : (execT ⟨fun _ _ => 0, fun _ _ _ => none, fun _ _ => 0, 0⟩ Gen.attrs
       (.asg (.idx1 0 (.var 1)) (.bin .add (.idx1 0 (.var 1)) (.lit 1)))
       (MiniF.storeOf [((1, 0, 0), 2)])).2
     = [.rd (1, 0, 0), .rd (0, 2, 0), .rd (1, 0, 0), .wr (0, 2, 0)] := by
